@@ -149,13 +149,17 @@ Denorm(seq, minLevel, levelMod, off) ==
 \* unions covering it; every index set of size >= 2 that occurs gets the canonical
 \* form of its leaves.  The regions are disjoint by construction.
 Owners(us, x) == {k \in 1..Len(us) : x \in LeafSet(us[k])}
-FindSets(us) == {Owners(us, x) : x \in AllLeaves} \ {S \in SUBSET (1..Len(us)) : Cardinality(S) < 2}
-Find(us) == LET ss == SetToSortSeq(FindSets(us), LAMBDA A, B :
+FindSets(us) == {S \in {Owners(us, x) : x \in AllLeaves} : Cardinality(S) >= 2}
+\* (the leaf sets and owner sets are computed once per call: Find is used with up to 24 unions)
+Find(us) == LET ls == [k \in 1..Len(us) |-> LeafSet(us[k])]
+                own == [x \in AllLeaves |-> {k \in 1..Len(us) : x \in ls[k]}]
+                sets == {S \in {own[x] : x \in AllLeaves} : Cardinality(S) >= 2}
+                ss == SetToSortSeq(sets, LAMBDA A, B :
                           \E k \in 1..Len(us) : /\ (k \in A) /\ ~(k \in B)
                                                 /\ \A m \in 1..(k - 1) : (m \in A) <=> (m \in B))
             IN  [n \in 1..Len(ss) |->
                     [idx |-> SetToSortSeq({k - 1 : k \in ss[n]}, <),
-                     cells |-> Canon({x \in AllLeaves : Owners(us, x) = ss[n]})]]
+                     cells |-> Canon({x \in AllLeaves : own[x] = ss[n]})]]
 
 \* ---- model-level theorems about the normal form (checked per generated case) --------
 \* Canon covers exactly S, is sorted, pairwise disjoint, sibling-merged and minimal.
